@@ -13,7 +13,8 @@ THEOREMS = {
     "Proofs.C19": ["VerifModel.C19." + t for t in [
         "C19_dispatch_total", "C19_never_unhandled", "C19_known_names", "C19_stub_is_error",
         "C19_threshold_axis_has_thresholds_partial", "C19_require_type_recognised_partial",
-        "C19_documented_arguments_accepted"]],
+        "C19_documented_arguments_accepted", "C19_dispatch_total_T", "C19_T_documented_accepted",
+        "C19_T_rejected", "C19_clim_irrelevant", "C19_within_refused"]],
 }
 TRUSTED_BASE = [
     "Lean 4.33 kernel; axioms propext, Classical.choice, Quot.sound only",
@@ -81,19 +82,65 @@ _CACHE = {}
 
 
 # ------------------------------------------------------------------ generation
+NEW_SHAPES = ["onelead", "allmiss", "fcmiss", "disjoint", "nooverlap", "x0", "nc"]
+TAGGS = AGGS + ["0.5"]
+
+
 def _ds(rng, name, k=None):
-    """a dataset token suitable (mostly) for the metric; k cycles the number of input files"""
+    """a dataset token suitable (mostly) for the metric; k cycles the number of input files; 30 % get one of the
+    shapes onelead / allmiss / fcmiss / disjoint / nooverlap / x0 / nc, 20 % a mixed kind (det + prob files, ensembles
+    of different sizes, different stored thresholds / quantile levels)"""
     if name in PROB:
         kind = rng.choice(["prob"] * 6 + ["ens"] * 3 + ["probnoq", "det"])
     else:
         kind = rng.choice(["det"] * 5 + ["prob", "ens"])
     n = (k % 3) + 1 if k is not None else rng.choice([1, 2, 2, 3])
     shape = rng.choice(["reg"] * 5 + ["onetime", "oneloc", "miss", "miss"])
+    r2 = random.Random(rng.random())
+    if r2.random() < 0.3:
+        shape = r2.choice(NEW_SHAPES)
+    if r2.random() < 0.2:
+        kind = r2.choice(["mixdp", "mixens", "mixpq"])
+        n = max(n, 2)
     return "%s%d%s" % (kind, n, shape)
 
 
-def _op(ds, name, axis="-", typ="plot", b="-", r="-", q="-", agg="-"):
-    return "cli %s %s %s %s %s %s %s %s" % (ds, name, axis, typ, b, r, q, agg)
+def _op(ds, name, axis="-", typ="plot", b="-", r="-", q="-", agg="-", clim="-", T="-"):
+    op = "cli %s %s %s %s %s %s %s %s" % (ds, name, axis, typ, b, r, q, agg)
+    if clim != "-":
+        op += " c=" + clim
+    if T != "-":
+        op += " T=" + T
+    return op
+
+
+class _Decks(object):
+    """shuffled decks dealt round-robin: every -type, bin type and aggregator meets every name several times"""
+
+    def __init__(self, rng):
+        self.rng = rng
+        self.d = {}
+
+    def deal(self, key, items):
+        if not self.d.get(key):
+            self.d[key] = list(items)
+            self.rng.shuffle(self.d[key])
+        return self.d[key].pop()
+
+
+def _extras(rng, decks, name):
+    """-b / -agg dealt round-robin; -c <climatology> on 5 % and -T 2 (with -Tagg / -Tx) on 5 % of the ops"""
+    kw = {}
+    if rng.random() < 0.5:
+        kw["b"] = decks.deal("b", BINS)
+    if rng.random() < 0.5:
+        kw["agg"] = decks.deal("agg", AGGS + ["0.5"])
+    if rng.random() < 0.05:
+        kw["clim"] = rng.choice(["det", "det", "prob", "ens"])
+    if rng.random() < 0.05:
+        kw["T"] = "%s:%s:%s" % (rng.choice(["2", "2", "12", "40"]), decks.deal("tagg", TAGGS + ["-"]),
+                                rng.choice(["leadtime", "time", "-", "-"]))
+    return kw
 
 
 def _variants(rng, names, full):
@@ -125,6 +172,14 @@ def _variants(rng, names, full):
         # -r together with -type rank/impact/map…
         for t in pick(["rank", "impact", "mapimpact", "map", "maprank", "text"], 1):
             out.append(_op(_ds(rng, name), name, rng.choice(["-", "threshold", "location"]), t, r="0,2,5"))
+        # -T: accepted and refused values (0, negative, not an integer), -Tagg unknown, -Tx not time / leadtime
+        for T in pick(["2:-:-", "3:sum:time", "1:0.5:leadtime", "0:-:-", "-1:mean:-", "x:-:-", "2.5:-:-", "2:foo:-",
+                       "2:-:location", "2:-:foo", "40:change:time"], 1):
+            out.append(_op(_ds(rng, name), name, rng.choice(["-", "leadtime", "time"]), rng.choice(["plot", "csv"]), T=T))
+        # -c with every kind of climatology file, also together with -T
+        for ck in pick(["det", "prob", "ens", "probnoq"], 1):
+            out.append(_op(_ds(rng, name), name, rng.choice(["-", "location", "threshold"]), rng.choice(["plot", "csv", "map"]),
+                           r=rng.choice(["-", "0,2,5"]), clim=ck, T=rng.choice(["-", "-", "2:-:-"])))
         # climatology that lacks the probabilistic fields
         if name in PROB and (full or rng.random() < 0.2):
             out.append(_op("prob%dreg/cdet" % rng.choice([1, 2]), name, "-", "csv"))
@@ -135,16 +190,19 @@ def _variants(rng, names, full):
 def _cross_full(rng, rounds):
     out = []
     k = rng.randrange(3)
+    r2 = random.Random(rng.random())
+    d2 = _Decks(r2)
     for _ in range(rounds):
         for name in NAMES:
             for ax in ["-"] + AXES:
                 for t in TYPES:
+                    kw = _extras(r2, d2, name)
                     if _ % 2 == 0:
-                        out.append(_op(_ds(rng, name, k), name, ax, t))
+                        out.append(_op(_ds(rng, name, k), name, ax, t, **kw))
                     elif _requirement(name) == "quantile" or name in QUANT:
-                        out.append(_op(_ds(rng, name, k), name, ax, t, q=rng.choice(["0.5", "0.1,0.9"])))
+                        out.append(_op(_ds(rng, name, k), name, ax, t, q=rng.choice(["0.5", "0.1,0.9"]), **kw))
                     else:
-                        out.append(_op(_ds(rng, name, k), name, ax, t, r=rng.choice(["1", "5", "0,2,5"])))
+                        out.append(_op(_ds(rng, name, k), name, ax, t, r=rng.choice(["1", "5", "0,2,5"]), **kw))
                     k += 1
         k += 1
     return out
@@ -195,31 +253,34 @@ def _requirement(name):
 
 
 def _cross_pairs(rng):
-    """every name with every -x dimension once (that pair selects the code path of a score or diagram), the -type
-    dealt round-robin from a shuffled deck so that every type meets every name several times"""
-    out, dt = [], []
+    """every name with every -x dimension once (that pair selects the code path of a score or diagram), the -type,
+    the bin type and the aggregator dealt round-robin from shuffled decks so that every value meets every name
+    several times; -c on 5 %, -T on 5 % of the ops"""
+    out = []
+    decks = _Decks(rng)
+    r2 = random.Random(rng.random())        # the additions draw from their own stream
+    d2 = _Decks(r2)
     for name in NAMES:
         for ax in ["-"] + AXES:
-            if not dt:
-                dt = TYPES[:]
-                rng.shuffle(dt)
             # once as it stands, once with the thresholds / quantile levels many classes ask for (declared through
             # require_threshold_type or only tested inside the plotting method: reliability, fss, droc, …)
-            out.append(_op(_ds(rng, name), name, ax, dt.pop()))
-            if not dt:
-                dt = TYPES[:]
-                rng.shuffle(dt)
+            out.append(_op(_ds(rng, name), name, ax, decks.deal("t", TYPES), **_extras(r2, d2, name)))
             if _requirement(name) == "quantile" or name in QUANT:
-                out.append(_op(_ds(rng, name), name, ax, dt.pop(), q=rng.choice(["0.5", "0.1,0.9"])))
+                out.append(_op(_ds(rng, name), name, ax, decks.deal("t", TYPES), q=rng.choice(["0.5", "0.1,0.9"]),
+                               **_extras(r2, d2, name)))
             elif name in DIAGRAMS:
                 # diagrams differ in how many thresholds they accept (exactly one, at least two): give both, with the
                 # output types a diagram has (the others end in the driver's error message whatever the -x is)
-                dt.pop()
-                out.append(_op(_ds(rng, name), name, ax, rng.choice(["plot", "text", "csv"]), r=rng.choice(["1", "5"])))
-                out.append(_op(_ds(rng, name), name, ax, rng.choice(["plot", "text", "csv"]), r="0,2,5"))
-                out.append(_op(_ds(rng, name), name, ax, rng.choice(["plot", "text", "csv"]), q="0.1,0.9"))
+                decks.deal("t", TYPES)
+                out.append(_op(_ds(rng, name), name, ax, rng.choice(["plot", "text", "csv"]), r=rng.choice(["1", "5"]),
+                               **_extras(r2, d2, name)))
+                out.append(_op(_ds(rng, name), name, ax, rng.choice(["plot", "text", "csv"]), r="0,2,5",
+                               **_extras(r2, d2, name)))
+                out.append(_op(_ds(rng, name), name, ax, rng.choice(["plot", "text", "csv"]), q="0.1,0.9",
+                               **_extras(r2, d2, name)))
             else:
-                out.append(_op(_ds(rng, name), name, ax, dt.pop(), r=rng.choice(["1", "5", "0,2,5"])))
+                out.append(_op(_ds(rng, name), name, ax, decks.deal("t", TYPES), r=rng.choice(["1", "5", "0,2,5"]),
+                               **_extras(r2, d2, name)))
     return out
 
 
@@ -312,8 +373,12 @@ def impl(op):
 def lean_op(op):
     c = R.parse_op(op)
     nq = 0 if c["q"] == "-" else len(c["q"].split(","))
-    return "dispatch %s %s %s %s %d %d %s" % (c["name"], c["axis"], c["type"], c["bin"],
+    line = "dispatch %s %s %s %s %d %d %s" % (c["name"], c["axis"], c["type"], c["bin"],
                                              0 if c["r"] == "-" else 1, nq, c["agg"])
+    if c["T"] != "-" or c["clim"] != "-":
+        h, tagg, tx = c["T"].split(":") if c["T"] != "-" else ("-", "-", "-")
+        line += " %s %s %s %s" % (h, tagg, tx, "1" if c["clim"] != "-" or "/c" in c["ds"] else "0")
+    return line
 
 
 def _parse_impl(s):
@@ -331,12 +396,27 @@ ENTRY_CORE = {"plot": "_plot_core", "text": "_get_x_y", "csv": "_get_x_y", "map"
               "plot_mapimpact": "_plot_mapimpact_core"}
 
 
+def _no_dataset(op):
+    """does the dataset of the op have no case in common (Data.__init__ must stop with its message)?"""
+    c = R.parse_op(op)
+    kind, n, shape, clim = R.parse_ds(c["ds"])
+    return shape == "nooverlap" and (n >= 2 or clim is not None or c["clim"] != "-")
+
+
 def cmp(op, impl_out, model_out):
     """the model decides error-vs-run, class, method, axis, threshold source and bin type from the command line;
     what happens inside a run (ok / data-dependent error message / exception) is the implementation's business"""
     i = _parse_impl(impl_out)
     st = i["status"]
     m = model_out.split()
+    if _no_dataset(op):
+        # the files have nothing in common: Data.__init__ must stop with its message — unless the argument loop, which
+        # runs before the files are opened, already refused the command line (-x / -T / -Tagg / -Tx values)
+        if m[0] == "ERR" and m[1] in ("unknownAxis", "badT", "nonPositiveT", "unknownAgg"):
+            return st == "exit1:driver" or (st == "exit1:run" and "cls" not in i)
+        return st == "exit1:data" and "cls" not in i
+    if st == "exit1:data":
+        return False           # every other dataset has common cases
     if st.startswith("exc:"):
         # the judge reports it; the set-up the driver reached must still be the predicted one
         if "cls" in i and m[0] in ("run",) and len(m) >= 5:
@@ -344,6 +424,14 @@ def cmp(op, impl_out, model_out):
         return True
     if m[0] == "UNHANDLED":
         return False
+    if m[0] == "ERR" and m[1].startswith("inrun:"):
+        # an error guard at the start of the selected method: the output object was set up as predicted and the run
+        # ended in an error message
+        if len(m) < 7 or "cls" not in i:
+            return "cls" not in i and st in ("exit1:driver", "exit1:run") and m[5] in ("data", "qdata", "detdefault")
+        cls, method, axis, src, b = m[2], m[3], m[4], m[5], m[6][4:]
+        return st == "exit1:run" and (i["cls"], i["axis"], i["thr"], i.get("bin")) == (cls, axis, src, b) and \
+            method in (i["entry"], ENTRY_CORE.get(i["entry"]))
     if m[0] == "ERR" and m[1].startswith("stub:"):
         if len(m) < 6:
             return False
@@ -393,6 +481,15 @@ def judge(op, impl_out, spec_out):
         # class / entry point the driver had selected); line numbers are reported but not part of the identity
         sig = {"kind": "crash", "exc": typ, "site": site, "raised": pkg,
                "cls": i.get("cls", "-"), "entry": i.get("entry", "-"), "owner": i.get("own", "-")}
+        try:            # the dataset class: known findings may be tied to it (mixed kinds, NetCDF, …)
+            c = R.parse_op(op)
+            sig["bin"] = "within-type" if "within" in c["bin"] else "default" if c["bin"] == "-" else "one-sided"
+            sig["nthr"] = "0" if c["r"] == "-" else str(len(c["r"].split(",")))
+            dk, dn, dshape, dclim = R.parse_ds(c["ds"])
+            sig.update({"dskind": dk, "dsshape": dshape, "files": str(dn),
+                        "clim": "yes" if (dclim or c["clim"] != "-") else "no", "T": "yes" if c["T"] != "-" else "no"})
+        except Exception:
+            pass
         return (sig, "unhandled %s at %s: %s" % (typ, st.split("@", 1)[1], cmdline))
     if st.startswith("EXC:"):     # raised outside verif.driver.run (harness)
         return ({"kind": "harness", "exc": st[4:]}, "harness failure %s on %s" % (st, op))
@@ -407,14 +504,21 @@ def nontrivial(op, out):
 def shrink(op):
     c = R.parse_op(op)
     kind, n, shape, clim = R.parse_ds(c["ds"])
-    for k in ("agg", "bin", "q", "r", "axis"):
+
+    def mk(d):
+        return _op(d["ds"], d["name"], d["axis"], d["type"], d["bin"], d["r"], d["q"], d["agg"], d["clim"], d["T"])
+    for k in ("T", "clim", "agg", "bin", "q", "r", "axis"):
         if c[k] != "-":
             d = dict(c)
             d[k] = "-"
-            yield _op(d["ds"], d["name"], d["axis"], d["type"], d["bin"], d["r"], d["q"], d["agg"])
+            yield mk(d)
     if shape != "reg":
-        yield _op("%s%d%s" % (kind, n, "reg") + ("/c" + clim if clim else ""), c["name"], c["axis"], c["type"],
-                  c["bin"], c["r"], c["q"], c["agg"])
+        yield mk(dict(c, ds="%s%d%s" % (kind, n, "reg") + ("/c" + clim if clim else "")))
+    if kind.startswith("mix"):
+        for bk in ("det", "prob", "ens"):
+            yield mk(dict(c, ds="%s%d%s" % (bk, n, shape) + ("/c" + clim if clim else "")))
+    if n > 1:
+        yield mk(dict(c, ds="%s%d%s" % (kind, n - 1, shape) + ("/c" + clim if clim else "")))
 
 
 def extra_evidence(rows):
